@@ -38,7 +38,7 @@ checks = {
          "all histories of depth 3 (thorough 4) over a 43-form alphabet covering every form family of the surface language incl. declarations, macros, packages, infix, failing forms and empty input; in every state the four VM stacks are at rest after a success, empty input evaluates to nil, and evaluating the forms in one call equals one at a time; additionally ~42k generated programs run in batches of 40 on one interpreter with stacks checked after every success",
          "state key = depths + printed user globals + macro names (read through verif accessors); bounded depth and alphabet", "§3 C04"),
  "C06": ("exploration", "small-scope exhaustive enumeration of operator/operand sequences and spacings; expansion compared with an independent tokeniser + precedence-climbing parser, value/effects compared with the prefix form",
-         "all sequences operand (op operand)^n for n=1 (17 operands x 19 operators x 4 spacings), n=2 (5 operands, 19^2 operators, 16 spacings), n=3 (level-representative operators; thorough also n=4), postfix and statement-separator variants, and 16 go-style for/if programs; (infixExpand {...}) must print exactly the tree R3 derives from the documented binding powers, and {…} must evaluate like that prefix form",
+         "all sequences operand (op operand)^n for n=1 (24 operands x 19 operators x 4 spacings), n=2 (5 operands, 19^2 operators, 16 spacings), n=3 (level-representative operators; thorough also n=4), postfix and statement-separator variants, and 16 go-style for/if programs; (infixExpand {...}) must print exactly the tree R3 derives from the documented binding powers, and {…} must evaluate like that prefix form",
          "trusts R3 (binding powers and sign rule as stated in the property); texts containing the <- / -> operators by maximal munch are outside the table and skipped", "§3 C06"),
  "C19": ("model_checking", "explicit-state BFS over histories of symbol creation / generation / duplication / cloning on a family of real interpreters sharing one table",
          "all histories of depth 5 (thorough 7) over 24 operations (MakeSymbol of fixed and would-be-generated names, GenSymbol, Duplicate, Clone on members 0..2); in every state: equal names <=> equal numbers over all symbols returned, generated symbols fresh and pairwise distinct, table a bijection; plus 8 script-level programs",
